@@ -564,6 +564,11 @@ def E_dispatch(repo, clause):
                     guarded_ = any(is_none_test_any_e(t_) == "is" and pol_ for t_, pol_, k_ in norm_guards(fn, x))
                     prefers_ext = isinstance(x.value, ast.BoolOp) and isinstance(x.value.op, ast.Or) and not (isinstance(x.value.values[0], ast.Name) and x.value.values[0].id == "filetype")
                     if not guarded_ and (prefers_ext or not isinstance(x.value, ast.BoolOp)) and "filetype" not in [getattr(v_, "id", None) for v_ in ([x.value.values[0]] if isinstance(x.value, ast.BoolOp) else [])]:
+                        from verif_sa.dataflow import _assigned_value
+                        av_ = _assigned_value(x, "filetype")
+                        v_ = av_[1] if av_ else x.value
+                        if isinstance(v_, ast.Name) and _may_depend_on(fn, v_, "filetype"):
+                            continue  # the stored value is itself computed from the incoming file type (a renamed copy): not an overwrite
                         overwrite = x
             if overwrite is not None:
                 obs.append(Ob("E5", clause, fn, overwrite, False,
@@ -615,6 +620,30 @@ def _cif_tags(fn):
         elif isinstance(n, ast.Constant) and isinstance(n.value, str) and n.value.startswith("_") and "%" not in n.value:
             tags.append((n.value, n))
     return tags
+
+
+def _may_depend_on(fn, expr, pname, depth=4):
+    """May the value of expr depend on the incoming value of the name pname (through local copies)?"""
+    from verif_sa.dataflow import _assigned_value, PARAM
+    for n in ast.walk(expr):
+        if isinstance(n, ast.Name) and isinstance(n.ctx, ast.Load):
+            if n.id == pname:
+                return True
+            if depth <= 0:
+                continue
+            try:
+                ds = fn.rd.defs_of_use(n)
+            except Exception:
+                return True
+            for d in ds:
+                if d == PARAM:
+                    continue
+                if not isinstance(d, ast.Assign):
+                    return True
+                av = _assigned_value(d, n.id)
+                if av is None or _may_depend_on(fn, av[1], pname, depth - 1):
+                    return True
+    return False
 
 
 def E2_cif_tags(repo, clause):
@@ -1309,20 +1338,35 @@ def E_retype(repo, clause):
 def E_enumeration_shape(repo, clause):
     obs = []
     ca = repo.fn("calc_angles")
-    lc = [n for n in ca.own_nodes() if isinstance(n, ast.ListComp) and isinstance(n.elt, ast.Tuple) and len(n.elt.elts) == 3]
+    lc = [n for n in ca.own_nodes() if isinstance(n, (ast.ListComp, ast.GeneratorExp)) and isinstance(n.elt, ast.Tuple) and len(n.elt.elts) == 3]
     ok = False
+    recognised = False
     if len(lc) == 1:
-        g = lc[0].generators[0]
-        lp = [a for a in ca.ancestors(lc[0]) if isinstance(a, ast.For)]
-        center = lp[0].target.id if lp and isinstance(lp[0].target, ast.Name) else None
-        over_nodes = lp and ast.unparse(lp[0].iter).endswith(".nodes")
-        comb = isinstance(g.iter, ast.Call) and call_name(g.iter) == "combinations" and const_value(g.iter.args[1]) == 2 and \
-            isinstance(g.iter.args[0], ast.Call) and call_name(g.iter.args[0]) == "neighbors" and ast.unparse(g.iter.args[0].args[0]) == center
-        a, b = [e.id for e in g.target.elts]
-        ok = bool(over_nodes) and comb and [getattr(e, "id", None) for e in lc[0].elt.elts] == [a, center, b] and not g.ifs
-    obs.append(Ob("E10", clause, ca, lc[0] if lc else ca.node, ok, "angles = every 2-combination of the neighbours of every node, centre in the middle slot", slot="angles"))
+        gens = lc[0].generators
+        g = gens[-1]
+        center, over_nodes = None, False
+        if len(gens) == 1:
+            lp = [a for a in ca.ancestors(lc[0]) if isinstance(a, ast.For)]
+            center = lp[0].target.id if lp and isinstance(lp[0].target, ast.Name) else None
+            over_nodes = bool(lp) and ast.unparse(lp[0].iter).endswith(".nodes")
+        elif len(gens) == 2 and isinstance(gens[0].target, ast.Name) and not gens[0].ifs:
+            center = gens[0].target.id
+            over_nodes = ast.unparse(gens[0].iter).endswith(".nodes")
+        comb = isinstance(g.iter, ast.Call) and call_name(g.iter) == "combinations" and len(g.iter.args) == 2 and const_value(g.iter.args[1]) == 2 and \
+            isinstance(g.iter.args[0], ast.Call) and call_name(g.iter.args[0]) == "neighbors" and len(g.iter.args[0].args) == 1 and ast.unparse(g.iter.args[0].args[0]) == center
+        if isinstance(g.target, ast.Tuple) and len(g.target.elts) == 2 and all(isinstance(e, ast.Name) for e in g.target.elts) and center is not None:
+            recognised = True
+            a, b = [e.id for e in g.target.elts]
+            ok = bool(over_nodes) and comb and [getattr(e, "id", None) for e in lc[0].elt.elts] == [a, center, b] and not g.ifs
+    obs.append(Ob("E10", clause, ca, lc[0] if lc else ca.node, ok, "angles = every 2-combination of the neighbours of every node, centre in the middle slot", slot="angles",
+                  undecided=not recognised))
     for f in (ca, repo.fn("calc_dihedrals")):
         acc = [n.target.id for n in f.own_nodes() if isinstance(n, ast.AugAssign) and isinstance(n.op, ast.Add) and isinstance(n.target, ast.Name)]
+        acc += [n.func.value.id for n in f.own_nodes() if isinstance(n, ast.Call) and call_name(n) in ("extend", "append") and isinstance(n.func, ast.Attribute)
+                and isinstance(n.func.value, ast.Name)]
+        acc += [n.targets[0].id for n in f.own_nodes() if isinstance(n, ast.Assign) and len(n.targets) == 1 and isinstance(n.targets[0], ast.Name)
+                and isinstance(n.value, ast.ListComp) and isinstance(n.value.elt, ast.Tuple)]
+        acc = sorted(set(acc))
         rets = [n for n in f.own_nodes() if isinstance(n, ast.Return)]
         r_ok = False
         if len(rets) == 1 and len(acc) == 1:
@@ -1330,8 +1374,12 @@ def E_enumeration_shape(repo, clause):
             r_ok = isinstance(rv, ast.Call) and call_name(rv) == "array" and len(rv.args) == 1 and isinstance(rv.args[0], ast.Name) and rv.args[0].id == acc[0]
             if isinstance(rv, ast.Name) and rv.id == acc[0]:
                 r_ok = True
+            raw = rets[0].value
+            if isinstance(raw, ast.Call) and call_name(raw) == "array" and len(raw.args) == 1 and isinstance(raw.args[0], ast.Name) and raw.args[0].id == acc[0]:
+                r_ok = True
         obs.append(Ob("E10", clause, f, rets[0] if rets else f.node, r_ok,
-                      "every enumerated term is returned: the result is the accumulated list itself, not a filtered or de-duplicated version of it", slot="%s:returns-all" % f.name))
+                      "every enumerated term is returned: the result is the accumulated list itself, not a filtered or de-duplicated version of it", slot="%s:returns-all" % f.name,
+                      undecided=len(acc) != 1 or len(rets) != 1))
         g_ok = any(isinstance(c, ast.Call) and ast.unparse(c.func).endswith("add_edges_from") and c.args and isinstance(c.args[0], ast.Name) and c.args[0].id == f.params[0]
                    for c in ast.walk(f.node)) and any(isinstance(c, ast.Call) and ast.unparse(c.func) in ("nx.Graph",) for c in ast.walk(f.node))
         obs.append(Ob("E10", clause, f, f.node, g_ok, "an undirected simple graph is built from exactly the given bond list (direction and duplicates are irrelevant)",
@@ -1352,12 +1400,19 @@ def E_enumeration_shape(repo, clause):
                 removes[s.value.func.value.id] = ast.unparse(s.value.args[0])
         an = [k for k, v in lists.items() if v == a]
         bn = [k for k, v in lists.items() if v == b]
-        lc = [n for n in ast.walk(lp[0]) if isinstance(n, ast.ListComp) and isinstance(n.elt, ast.Tuple) and len(n.elt.elts) == 4]
-        if an and bn and len(lc) == 1:
+        lc = [n for n in ast.walk(lp[0]) if isinstance(n, (ast.ListComp, ast.GeneratorExp)) and isinstance(n.elt, ast.Tuple) and len(n.elt.elts) == 4]
+        if an and bn and len(lc) == 1 and len(lc[0].generators) in (1, 2):
             rem_ok = removes.get(an[0]) == b and removes.get(bn[0]) == a
-            g0, g1 = lc[0].generators
-            prod_ok = ast.unparse(g0.iter) == an[0] and ast.unparse(g1.iter) == bn[0] and not g0.ifs and not g1.ifs
-            slots = [ast.unparse(e) for e in lc[0].elt.elts] == [g0.target.id, a, b, g1.target.id]
+            if len(lc[0].generators) == 2:
+                g0, g1 = lc[0].generators
+                prod_ok = ast.unparse(g0.iter) == an[0] and ast.unparse(g1.iter) == bn[0] and not g0.ifs and not g1.ifs
+                t0_, t1_ = getattr(g0.target, "id", None), getattr(g1.target, "id", None)
+            else:
+                g0 = lc[0].generators[0]
+                prod_ok = isinstance(g0.iter, ast.Call) and call_name(g0.iter) == "product" and [ast.unparse(x) for x in g0.iter.args] == [an[0], bn[0]] and not g0.iter.keywords \
+                    and not g0.ifs and isinstance(g0.target, ast.Tuple) and len(g0.target.elts) == 2
+                t0_, t1_ = ([getattr(e_, "id", None) for e_ in g0.target.elts] if isinstance(g0.target, ast.Tuple) and len(g0.target.elts) == 2 else (None, None))
+            slots = [ast.unparse(e) for e in lc[0].elt.elts] == [t0_, a, b, t1_]
             ok = rem_ok and prod_ok and slots
             detail = "per edge (a,b): neighbours of a minus b times neighbours of b minus a, tuple (a1, a, b, b1): removals=%s product=%s slots=%s" % (rem_ok, prod_ok, slots)
     # recognised shape with a neighbour list that still contains the bond partner: chains a-b-a-x / x-a-b-a are enumerated as torsions
@@ -1369,7 +1424,7 @@ def E_enumeration_shape(repo, clause):
                 detail += " -- the neighbour list of one end still contains the other end of the bond: degenerate chains through the same atom twice are returned as dihedrals"
         except NameError:
             pass
-    obs.append(Ob("E10", clause, cd, lp[0] if lp else cd.node, ok, detail, slot="dihedrals", positive=pos10))
+    obs.append(Ob("E10", clause, cd, lp[0] if lp else cd.node, ok, detail, slot="dihedrals", positive=pos10, undecided=detail == "edge loop not found"))
     # no edge is skipped that has at least one further neighbour on each end (an empty neighbour list yields no tuple anyway)
     if len(lp) == 1:
         try:
